@@ -23,7 +23,8 @@ print(' '.join(ids[:2]))")
   for P in $checks; do
     ./check $P --tier quick > /tmp/seeded_$P.log 2>&1; rc=$?
     v=$(grep -c '^VIOLATION' /tmp/seeded_$P.log)
-    res="$res $P:exit$rc:violations$v"
+    first=$(grep -m1 '^  oracle=' /tmp/seeded_$P.log | sed -E 's/^  oracle=([^ ]+) observable=(.*) detail=.*/\1\/\2/' | tr ' ' '_' | cut -c1-90)
+    res="$res $P:exit$rc:violations$v:$first"
   done
   git -C /repo checkout -q -- .
   echo "$id$res" | tee -a $OUT
